@@ -40,6 +40,12 @@ func DeepCopy(node Node, document *Document) Node {
 			family = fam
 		}
 
+		// Husband, wife and child nodes know the family they belong to. This is
+		// needed when one of them is copied without the family around it.
+		if familyNoder, ok := node.(FamilyNoder); ok && family == nil {
+			family = familyNoder.Family()
+		}
+
 		return shallowCopyNode(node, document, family), true
 	})
 }
